@@ -940,6 +940,9 @@ class _GenerateRenderMethod:
         if node.is_anonymous:
             self.printer.writeline(call % ("%s()" % node.funcname))
         else:
+            # the definition that runs may be an overriding one from a
+            # derived template, buffered or not: write what it returns
+            call = "__M_writer(%s)"
             nameargs = node.get_argument_expressions(as_call=True)
             nameargs += ["**pageargs"]
             self.printer.writeline(
